@@ -1,5 +1,6 @@
 import RedisVerif.Lemmas.SortedSetZ3
 import RedisVerif.Model.ExecutorCode
+import RedisVerif.Lemmas.RedisX
 
 /-!
 # C01 — the data structures behind the commands REFINE the reference model
@@ -21,7 +22,7 @@ transcription to the real `RedisSortedSet` (harness/src/datax.rs: same operation
 real structure, observables AND the internal layout compared after every step).
 -/
 namespace RedisVerif.C01Data
-open RedisVerif RedisVerif.Redis RedisVerif.SkipList RedisVerif.DataStructs RedisVerif.ExecutorCode
+open RedisVerif RedisVerif.Redis RedisVerif.SkipList RedisVerif.DataStructs RedisVerif.ExecutorCode RedisVerif.RedisX
 
 /-! ## the level generator of the code is one of the generators the theorems quantify over -/
 
@@ -253,6 +254,44 @@ theorem sds_representation_boundary :
 example : ((Sds.new (List.replicate 22 7)).append (Sds.new [1])).isInline = true := by decide
 example : ((Sds.new (List.replicate 23 7)).append (Sds.new [1])).isInline = false := by decide
 example : ((Sds.heap [1, 2]).append (Sds.new [3])).isInline = false := by decide
+
+/-! ## the commands outside `Cmd`: SETBIT / GETBIT, BatchSet / BatchGet, KEYS pattern (`Model/RedisX.lean`) -/
+
+/-- the invariant of the keyspace survives them too -/
+theorem x_inv_preserved (s : State) (now : Nat) (c : XCmd) (h : Inv s) : Inv (stepX s now c).1 :=
+  inv_execX (inv_purge now h) c
+
+/-- SETBIT writes exactly the addressed bit: reading it back gives the value written, every other
+    bit of that byte is as before (bytes are < 256, bit positions < 8) -/
+theorem setbit_laws : (∀ (b : Fin 256) (i : Fin 8) (bit : Fin 2), bitOf (withBit b.val i.val bit.val) i.val = bit.val) ∧
+    (∀ (b : Fin 256) (i j : Fin 8) (bit : Fin 2), j ≠ i → bitOf (withBit b.val i.val bit.val) j.val = bitOf b.val j.val) :=
+  ⟨bit_roundtrip, bit_others_kept⟩
+
+-- SETBIT k 7 1 on a missing key creates "\x01" (no deadline) and replies 0; GETBIT reads it; an
+-- existing key keeps its deadline; offset 2^32 is refused; wrong type
+example : stepX [] 1000 (.setbit 1 7 1) = ([(1, ⟨.str [1], none⟩)], .int 0) := by decide
+example : (stepX [(1, ⟨.str [1], some 5000⟩)] 1000 (.getbit 1 7)).2 = .int 1 := by decide
+example : stepX [(1, ⟨.str [1], some 5000⟩)] 1000 (.setbit 1 9 1) =
+    ([(1, ⟨.str [1, 64], some 5000⟩)], .int 0) := by decide
+example : (stepX [] 1000 (.setbit 1 4294967296 1)).2 = .err .notInt := by decide
+example : (stepX [(1, ⟨.list [[1]], none⟩)] 1000 (.getbit 1 0)).2 = .err .wrongType := by decide
+
+/-- `KEYS *` lists everything -/
+theorem glob_star_matches_everything (s : BS) : globMatch [42] s = true :=
+  globFuel_star_all s _ (by simp; omega)
+
+/-- a pattern without `*` `?` `[` `\` matches exactly itself -/
+theorem glob_plain_matches_itself_only (p s : BS) (hp : ∀ x ∈ p, plainByte x) :
+    globMatch p s = decide (p = s) :=
+  globFuel_plain p s _ hp (by omega)
+
+-- h?llo, h[ae]llo, h[^e]llo, h[a-b]llo with the ends swapped, an escaped star, a class that is not closed
+example : globMatch [104, 63, 108] [104, 97, 108] = true := by decide
+example : globMatch [104, 91, 97, 101, 93, 108] [104, 101, 108] = true := by decide
+example : globMatch [104, 91, 94, 101, 93, 108] [104, 101, 108] = false := by decide
+example : globMatch [91, 99, 45, 97, 93] [98] = true := by decide
+example : globMatch [97, 92, 42] [97, 42] = true ∧ globMatch [97, 92, 42] [97, 98] = false := by decide
+example : globMatch [91, 97, 98] [97] = true := by decide
 
 /-! ## where the executor's code deviates from the specification (known findings, by cause) -/
 
